@@ -287,6 +287,12 @@ func (h *handler) serve(clientCtx context.Context) error {
 			continue
 		}
 		if md, ok := si.methods[method]; ok {
+			if rpc.GetReset_() != nil || (rpc.GetBody() == nil && rpc.GetTrailer() != nil) {
+				// Not a request: a reset or a bare trailer (e.g. a peer cancelling
+				// or closing the call) must not run the method a second time.
+				log.Warn().Msgf("Server: %s: reset or trailer for a unary method: ignoring message", rawMethod)
+				continue
+			}
 			select {
 			case h.unaryRpcChan <- unaryRpcArgs{si, md, rpc, time.Now()}:
 			case <-h.ctx.Done():
